@@ -1,3 +1,4 @@
+import CffiVerif.Generated.AtomicWriteOps
 /-
 Model of the write path of `_make_c_or_py_source` (src/cffi/recompiler.py:1414)
 and of the way the generator orders declarations.
@@ -37,6 +38,7 @@ propagates, nothing is written), `fsync`/power-loss durability (the code never
 syncs), the file-like-object branch (no file system involved).
 -/
 namespace CffiVerif.AtomicWrite
+open CffiVerif.Generated.AtomicWriteOps (PathVar Step)
 
 abbrev Path := Nat
 abbrev Text := List Nat
@@ -94,30 +96,91 @@ def univNewlinesAux : Bool → Text → Text
 
 def univNewlines (t : Text) : Text := univNewlinesAux false t
 
-/-- `f1.read(len(output) + 1) == output` on an existing, decodable file. -/
+/-! ### The operation sequence, built from the statements extracted from the source
+
+`Generated/AtomicWriteOps.lean` (regenerated on every run by translate/c23_atomic_write.py)
+holds the statements of the `try` body, of the `except OSError` handler and of the inner
+rename fallback, in program order.  They are interpreted here. -/
+
+def pathOf (tmp target : Path) : PathVar → Path
+  | .target => target
+  | .tmp => tmp
+
+/-- The operations of a straight-line statement list.  `cur` = the file bound to `f1`
+(`true` = opened for writing); `write` becomes one operation per chunk; a `rename` that the
+platform refuses (`renameOk = false`) is followed by the operations of the fallback. -/
+def stepOps (tmp target : Path) (chunks : List Text) (renameOk : Bool) (fallback : List Op) :
+    Option (Path × Bool) → List Step → List Op
+  | _, [] => []
+  | _, .open p mode :: rest =>
+    let q := pathOf tmp target p
+    if mode == "w" then Op.openTrunc q :: stepOps tmp target chunks renameOk fallback (some (q, true)) rest
+    else Op.openRead q :: stepOps tmp target chunks renameOk fallback (some (q, false)) rest
+  | cur, .readCompare _ :: rest =>
+    (match cur with | some (q, _) => [Op.read q] | none => []) ++ stepOps tmp target chunks renameOk fallback cur rest
+  | cur, .write :: rest =>
+    (match cur with | some (q, _) => chunks.map (Op.write q) | none => []) ++
+      stepOps tmp target chunks renameOk fallback cur rest
+  | cur, .close :: rest =>
+    (match cur with
+      | some (q, true) => [Op.closeWrite q]
+      | some (q, false) => [Op.closeRead q]
+      | none => []) ++ stepOps tmp target chunks renameOk fallback none rest
+  | cur, .rename s d :: rest =>
+    (if renameOk then [Op.rename (pathOf tmp target s) (pathOf tmp target d)]
+     else Op.renameFail (pathOf tmp target s) (pathOf tmp target d) :: fallback) ++
+      stepOps tmp target chunks renameOk fallback cur rest
+  | cur, .unlink p :: rest => Op.unlink (pathOf tmp target p) :: stepOps tmp target chunks renameOk fallback cur rest
+  | cur, .ret _ :: rest => stepOps tmp target chunks renameOk fallback cur rest
+
+/-- The value returned by a statement list (its first `return`). -/
+def stepRet : List Step → Option Bool
+  | [] => none
+  | .ret b :: _ => some b
+  | _ :: rest => stepRet rest
+
+/-- The limit of the read-back, `f1.read(len(output) + k)`, as extracted. -/
+def readLimit : List Step → Option Nat
+  | [] => none
+  | .readCompare l :: _ => l
+  | _ :: rest => readLimit rest
+
+/-- The text `f1.read(limit)` returns. -/
+def readBack (content : Text) (outLen : Nat) : Option Nat → Text
+  | none => univNewlines content
+  | some k => (univNewlines content).take (outLen + k)
+
+/-- The `try` body runs to its `return`: the target exists, is decodable, and the text read back
+(`f1.read(len(output) + 1)` in the source) equals the output. -/
 def upToDate (fs : FS) (target : Path) (output : Text) : Bool :=
   match fs.files target with
-  | some f => (univNewlines f.content).take (output.length + 1) == output
+  | some f => readBack f.content output.length (readLimit Generated.AtomicWriteOps.tryBody) == output
   | none => false
 
+/-- The operations of the `try` part: the whole `with` block when the target exists (the
+`raise OSError` inside it leaves through the end of the block), only the failing `open` otherwise. -/
 def readOps (fs : FS) (target : Path) : List Op :=
+  let ops := stepOps target target [] true [] none Generated.AtomicWriteOps.tryBody
   match fs.files target with
-  | some _ => [.openRead target, .read target, .closeRead target]
-  | none => [.openRead target]
+  | some _ => ops
+  | none => ops.take 1
 
+/-- The operations of the `except OSError` handler. -/
 def writeOps (tmp target : Path) (chunks : List Text) (renameOk : Bool) : List Op :=
-  [Op.openTrunc tmp] ++ chunks.map (Op.write tmp) ++ [Op.closeWrite tmp] ++
-    (if renameOk then [Op.rename tmp target]
-     else [Op.renameFail tmp target, Op.unlink target, Op.rename tmp target])
+  stepOps tmp target chunks renameOk
+    (stepOps tmp target chunks true [] none Generated.AtomicWriteOps.renameFallback) none
+    Generated.AtomicWriteOps.handlerBody
 
 /-- The operation sequence of `_make_c_or_py_source` for a path target and its
-return value (`True` = updated).  `chunks` is how the buffered writer splits the
+return value (`some true` = updated; `none` would be falling off the end).  `chunks` is how the buffered writer splits the
 output into `write` calls; `renameOk = false` is the platform where renaming over
 an existing file fails (the `except OSError` fallback). -/
 def plan (fs : FS) (tmp target : Path) (output : Text) (chunks : List Text)
-    (renameOk : Bool := true) : List Op × Bool :=
-  if upToDate fs target output then (readOps fs target, false)
-  else (readOps fs target ++ writeOps tmp target chunks renameOk, true)
+    (renameOk : Bool := true) : List Op × Option Bool :=
+  if upToDate fs target output then
+    (readOps fs target, stepRet Generated.AtomicWriteOps.tryBody)
+  else (readOps fs target ++ writeOps tmp target chunks renameOk,
+        stepRet Generated.AtomicWriteOps.handlerBody)
 
 /-- An operation that can change the file system. -/
 def Op.mutates : Op → Bool
